@@ -2,72 +2,47 @@ package mem
 
 import "container/list"
 
-type msgDone struct {
-	msg  *Message
-	done chan struct{}
+// The size limit (maxkb) is enforced with a store-wide account of the messages in arrival
+// order.  The account is updated while the mailbox lock of the affected message is held, so it
+// always agrees with what the mailboxes hold; Store.sizeMu is only ever taken after a mailbox
+// lock, never the other way round.
+
+// account registers a newly delivered message and returns the oldest messages that have to go to
+// bring the store back under its limit (they have already left the account).  The caller holds
+// the mailbox lock of m and removes the returned messages after releasing it.
+func (s *Store) account(m *Message) (evict []*Message) {
+	if s.maxSize <= 0 {
+		return nil
+	}
+	s.sizeMu.Lock()
+	defer s.sizeMu.Unlock()
+	m.el = s.all.PushBack(m)
+	s.curSize += m.Size()
+	for s.curSize > s.maxSize {
+		oldest := s.all.Front().Value.(*Message)
+		s.all.Remove(oldest.el)
+		oldest.el = nil
+		s.curSize -= oldest.Size()
+		evict = append(evict, oldest)
+	}
+	return evict
 }
 
-// maxSizeEnforcer will delete the oldest message until the entire mail store is equal to or less
-// than maxSize bytes.
-func (s *Store) maxSizeEnforcer(maxSize int64) {
-	all := &list.List{}
-	curSize := int64(0)
-	for {
-		select {
-		case md, ok := <-s.incoming:
-			if !ok {
-				return
-			}
-			// Add message to all.
-			m := md.msg
-			el := all.PushBack(m)
-			m.el = el
-			curSize += int64(m.Size())
-			for curSize > maxSize {
-				// Remove oldest message.
-				el := all.Front()
-				all.Remove(el)
-				m := el.Value.(*Message)
-				if s.removeMessage(m.mailbox, m.id) != nil {
-					curSize -= int64(m.Size())
-				}
-			}
-			close(md.done)
-		case md, ok := <-s.remove:
-			if !ok {
-				return
-			}
-			// Remove message from all.
-			m := md.msg
-			el := all.Remove(m.el)
-			if el != nil {
-				curSize -= int64(m.Size())
-			}
-			close(md.done)
-		}
+// unaccount takes a message that is leaving its mailbox out of the account, if it is still in
+// it.  The caller holds the mailbox lock of m.
+func (s *Store) unaccount(m *Message) {
+	if s.maxSize <= 0 {
+		return
+	}
+	s.sizeMu.Lock()
+	defer s.sizeMu.Unlock()
+	if m.el != nil {
+		s.all.Remove(m.el)
+		m.el = nil
+		s.curSize -= m.Size()
 	}
 }
 
-// enforcerDeliver sends delivery to enforcer if configured, and waits for completion.
-func (s *Store) enforcerDeliver(m *Message) {
-	if s.incoming != nil {
-		md := &msgDone{
-			msg:  m,
-			done: make(chan struct{}),
-		}
-		s.incoming <- md
-		<-md.done
-	}
-}
-
-// enforcerRemove sends removal to enforcer if configured, and waits for completion.
-func (s *Store) enforcerRemove(m *Message) {
-	if s.remove != nil {
-		md := &msgDone{
-			msg:  m,
-			done: make(chan struct{}),
-		}
-		s.remove <- md
-		<-md.done
-	}
+func newAccount() *list.List {
+	return list.New()
 }
